@@ -73,7 +73,7 @@ type Throw struct {
 
 func (t *Throw) Error() string { return t.Class }
 
-func throwType() { panic(&Throw{Class: "TypeError"}) }
+func throwType()  { panic(&Throw{Class: "TypeError"}) }
 func throwRange() { panic(&Throw{Class: "RangeError"}) }
 
 // ThrowValue throws an arbitrary value (used by scripted callbacks).
